@@ -5,12 +5,15 @@ package config_test
 import (
 	"fmt"
 	"net"
+	"net/netip"
+	"os"
 	"reflect"
 	"strings"
 	"testing"
 	"time"
 
 	"github.com/mdlayher/corerad/internal/config"
+	"github.com/mdlayher/corerad/internal/system"
 	"github.com/mdlayher/corerad/internal/verifh"
 	"github.com/mdlayher/ndp"
 )
@@ -29,8 +32,49 @@ func TestVerifC01(t *testing.T) {
 	if verifh.Thorough() {
 		n = 30000
 	}
+	if os.Getenv("VERIF_C01_SECTION") == "fixed" {
+		n = 0 // C13 / C15 run the fixed wildcard-next-to-static scenarios only
+	}
 	for i := 0; i < n; i++ {
 		vbC01Case(t, out, fmt.Sprintf("c01-%d", i), "", nil)
+	}
+	// static stanzas next to a wildcard whose expansion shares a base address with them at another length (the first
+	// /64 of a delegated /56 that is also configured as an on-link aggregate; a static /56 route under the /48 anchored on
+	// lo): different lengths are different prefixes, every one of them is in the RA
+	type fixed struct {
+		name, toml string
+		addrs      []string
+		routes     []string
+	}
+	head := "[[interfaces]]\nname = \"eth0\"\nadvertise = true\n"
+	for _, f := range []fixed{
+		{"agg-prefix-then-wildcard", head + "[[interfaces.prefix]]\nprefix = \"2001:db8:0:100::/56\"\nautonomous = false\n[[interfaces.prefix]]\nprefix = \"::/64\"\n",
+			[]string{"2001:db8:0:100::1/64", "2001:db8:0:101::1/64"}, nil},
+		{"wildcard-then-agg-prefix", head + "[[interfaces.prefix]]\nprefix = \"::/64\"\n[[interfaces.prefix]]\nprefix = \"2001:db8:0:100::/56\"\nautonomous = false\n",
+			[]string{"2001:db8:0:100::1/64", "2001:db8:0:101::1/64"}, nil},
+		{"static-route-then-wildcard", head + "[[interfaces.route]]\nprefix = \"2001:db8:10::/56\"\n[[interfaces.route]]\nprefix = \"::/0\"\n",
+			nil, []string{"2001:db8:10::/48", "2001:db8:20::/48"}},
+		{"wildcard-then-static-route", head + "[[interfaces.route]]\nprefix = \"::/0\"\n[[interfaces.route]]\nprefix = \"2001:db8:10::/56\"\n",
+			nil, []string{"2001:db8:10::/48", "2001:db8:20::/48"}},
+		{"prefix-and-route-same-base", head + "[[interfaces.prefix]]\nprefix = \"2001:db8:10::/64\"\n[[interfaces.route]]\nprefix = \"::/0\"\n[[interfaces.prefix]]\nprefix = \"::/64\"\n",
+			[]string{"2001:db8:10::1/64", "2001:db8:10:1::1/64"}, []string{"2001:db8:10::/64", "2001:db8:10::/48"}},
+	} {
+		f := f
+		vbSysFix = func(s *vbSys) {
+			s.addrsFail, s.routesFail, s.fwd = false, false, true
+			s.addrs, s.routes = nil, nil
+			for _, a := range f.addrs {
+				s.addrs = append(s.addrs, system.IP{Address: netip.MustParsePrefix(a), ValidForever: true})
+			}
+			for _, r := range f.routes {
+				s.routes = append(s.routes, system.Route{Prefix: netip.MustParsePrefix(r), Index: 1, Preference: ndp.Medium})
+			}
+		}
+		vbC01Case(t, out, "c01-fixed-"+f.name, f.toml, nil)
+		vbSysFix = nil
+	}
+	if os.Getenv("VERIF_C01_SECTION") == "fixed" {
+		return
 	}
 	// cross product: each stanza kind present / absent (2^8) x forwarding x MAC present / absent
 	if verifh.Thorough() {
@@ -77,6 +121,9 @@ func vbCrossToml(m int) string {
 	return b.String()
 }
 
+// vbSysFix, when set, rewrites the generated system state of the next case (fixed scenarios).
+var vbSysFix func(*vbSys)
+
 func vbC01Case(t *testing.T, out *verifh.Out, id, toml string, cross *int) {
 	if !out.Wants(id) {
 		return
@@ -93,6 +140,9 @@ func vbC01Case(t *testing.T, out *verifh.Out, id, toml string, cross *int) {
 	}
 	epoch := vbEpoch(g.r)
 	s := g.sys(epoch)
+	if vbSysFix != nil {
+		vbSysFix(s)
+	}
 	if cross != nil {
 		s.fwd = *cross&256 != 0
 		if *cross&512 == 0 {
